@@ -1,5 +1,15 @@
 //! C15 candidate findings of unit sstable_range_blocks: drop into sstable/tests/ ;
 //! `cargo test --offline -p tantivy-sstable --test demo_sstable_range_blocks`
+//!
+//! STATUS: both defects REPAIRED in /repo; on the repaired tree this file passes 2/2.
+//! - inverted_range_across_blocks_is_empty: before the fix `FileSlice::slice` panicked `assertion failed: end >= start`
+//!   (common/src/file_slice.rs:175, debug and release); repaired by commit "fix: sstable range with an upper bound below the
+//!   lower bound panicked" (file_slice_for_range returns FileSlice::empty() when last_block_id < first_block_id).
+//! - huge_limit_returns_all_entries: before the fix `block_addr.first_ordinal + limit` overflowed (debug: panic `attempt to add
+//!   with overflow` at sstable/src/dictionary.rs:220; release: 11 of 1900 entries returned); repaired by commit "fix: sstable
+//!   range with a huge limit overflowed the ordinal limit" (saturating_add).
+//! Unit sstable_range_blocks now proves the contract (no under-approximation, panic freedom) for ALL bound pairs and ALL limits;
+//! its mutants revert_guard_removed / revert_limit_unchecked_add re-introduce the two defects and are caught.
 use tantivy_sstable::{Dictionary, MonotonicU64SSTable};
 
 fn build(n: u64) -> Dictionary<MonotonicU64SSTable> {
